@@ -226,8 +226,10 @@ def succ_edges(p, t):
     return out
 
 
-def wf(p, why=None):
-    """mirror of PTGDefs.wf_program; returns True/False (why: list receiving a reason)"""
+def wf(p, why=None, first_match=False):
+    """mirror of PTGDefs.wf_program (first_match=True: of PTGDefs.wf_first_match, where the first input
+    dependency of a data flow whose guard holds is the input and later ones may hold too);
+    returns True/False (why: list receiving a reason)"""
     def no(msg):
         if why is not None:
             why.append(msg)
@@ -264,8 +266,9 @@ def wf(p, why=None):
                         if tg is not None and (tg[0] != 'T' or not target_tasks(p.gvals, env, 0, tg)):
                             return no("active CTL input without task in %s" % c.name)
             elif any(d.din for d in f.deps):
-                if sum(1 for d in f.deps if d.din and dep_target(p.gvals, env, d) is not None) != 1:
-                    return no("data flow %s of %s%s: active inputs != 1" % (f.name, c.name, t[1]))
+                na = sum(1 for d in f.deps if d.din and dep_target(p.gvals, env, d) is not None)
+                if na < 1 or (na != 1 and not first_match):
+                    return no("data flow %s of %s%s: %d active inputs" % (f.name, c.name, t[1], na))
         for e in P[t]:
             ft, q, fq = e
             if q not in idset:
@@ -885,6 +888,7 @@ def allof(nexpr): return ('r', lambda u: C(0), lambda u, n=nexpr: simp(B("sub", 
 def rng2(i): return ('r', lambda u, i=i: B("mul", u[i], C(2)), lambda u, i=i: B("add", B("mul", u[i], C(2)), C(1)))
 
 
+FIRST_MATCH_TEMPLATES = ("firstmatch",)      # accepted by wf(first_match=True) only (overlapping input guards)
 TEMPLATES = ("chain", "bcast_gather", "diamond", "split_merge", "branch", "pipeline2d", "fan", "tri", "mixed")
 
 
@@ -908,7 +912,7 @@ def gen_program(rng, template=None, max_inst=120, rich=True, tries=40, **genattr
         n = len(instances(p))
         if n == 0 or n > max_inst:
             continue
-        if wf(p):
+        if wf(p, first_match=(t in FIRST_MATCH_TEMPLATES)):
             return p
     # fall back to the simplest program
     g = Gen(rng.fork(), max_inst, False)
@@ -1132,6 +1136,62 @@ def _t_gather2(g):
         g.p.classes[t].count = True           # [count_deps = on]
     for c in g.p.classes:
         c.prio = None
+
+
+def _t_firstmatch(g):
+    """first match wins: a mask-mode consumer CONS with two input flows fed by the two output flows of ONE producer
+    instance, where flow A lists the task dependency under a guard followed by an unguarded (or overlapping)
+    memory fallback:      RW A <- (k > lo) ? X PROD(k)   <- D(k)        READ B <- (k > lo) ? Y PROD(k) : D(k)
+    PROD releases its flows in order, Y (-> B) before X (-> A): if the runtime went on scanning A's dependencies past
+    the first match it would pre-mark A from the fallback, start CONS(k) when B arrives and again when A arrives.
+    KEEP(k) reads both outputs too (with --slow it keeps the producer's data alive so that a duplicate shows up in
+    the body log instead of a crash).  Only wf(first_match=True) / wf_first_match accepts these programs."""
+    r = g.r
+    n = r.range(2, 7)
+    extra = r.pick([0, 1, 1])                  # CONS instances not fed by PROD: the fallback is really used there
+    prod = g.new_class([(n, False)])
+    cons = g.new_class([(n + extra, False)])
+    P_, C_ = g.p.classes[prod], g.p.classes[cons]
+    C_.count = False                           # mask mode
+    swapped = r.chance(1, 5)                   # sometimes A is fed by the producer's first flow
+    fy = g.add_flow(prod, 'B', "Y")
+    fx = g.add_flow(prod, 'B', "X")
+    if swapped:
+        fy, fx = fx, fy
+    a = g.add_flow(cons, r.pick(['B', 'R']), "A")
+    b = g.add_flow(cons, 'R', "B")
+    # PROD(u) -> CONS(u + extra)
+    g.connect((prod, fy), (cons, b), [shift(0, extra)], [shift(0, -extra)])
+    g.connect((prod, fx), (cons, a), [shift(0, extra)], [shift(0, -extra)])
+    da = [d for d in C_.flows[a].deps if d.din][0]
+    uc = g.canon(cons, 0)
+    if da.guard is None:                       # same sizes: a guard that always holds
+        da.guard = simp(B("ge", uc, C(0)))
+    fb = g.mem_ref(cons)
+    k = C_.flows[a].deps.index(da)
+    style = r.below(3)
+    if style == 0:
+        C_.flows[a].deps.insert(k + 1, Dep(True, None, fb))                              # unguarded, final
+    elif style == 1:
+        C_.flows[a].deps.insert(k + 1, Dep(True, simp(B("ge", uc, C(0))), fb))           # overlapping guard
+    else:
+        C_.flows[a].deps.insert(k + 1, Dep(True, simp(B("lt", uc, C(extra + 1))), fb))   # overlaps for one instance only
+        C_.flows[a].deps.insert(k + 2, Dep(True, None, g.mem_ref(cons)))
+    db = [d for d in C_.flows[b].deps if d.din][0]
+    if db.guard is None and r.chance(1, 2):    # B may use the idiom as well
+        db.guard = simp(B("ge", uc, C(0)))
+        C_.flows[b].deps.append(Dep(True, None, g.mem_ref(cons)))
+    if r.chance(4, 5):
+        keep = g.new_class([(n, False)])
+        kk = g.add_flow(keep, 'R', "K")
+        kl = g.add_flow(keep, 'R', "L")
+        g.connect((prod, fx), (keep, kk), [same(0)], [same(0)])
+        g.connect((prod, fy), (keep, kl), [same(0)], [same(0)])
+    if r.chance(1, 3):                         # something downstream of CONS
+        if C_.flows[a].mode == 'B':
+            t = g.new_class([(n + extra, False)])
+            ta = g.add_flow(t, 'R')
+            g.connect((cons, a), (t, ta), [same(0)], [same(0)])
 
 
 def _t_mixed(g):
